@@ -19,7 +19,7 @@ ENGINE_OPTS = C03.ENGINE_OPTS
 
 
 def bounds(tier):
-    return {"N": "<=3", "D": "1..2", "E": "2 data categories + 1 spare", "new common": "every value in 0..E (E never occurs)",
+    return {"N": "<=3", "D": "1..2 one-axis, plus a (N,2) dimension alone and with a plain dimension", "E": "2 data categories + 1 spare", "new common": "every value in 0..E (E never occurs)",
             "aggregates": "count, valid_count, sum, mean with a covering set of weights/policy/format"}
 
 
@@ -42,6 +42,16 @@ def configs(tier, seed):
                             v2 = v
                         out.append(C03._base(3 if D == 1 else 2, [[]] * D, E, commons, agg, weights=wf, ignore=bool(i % 2),
                                              fmt=["nan", "pair"][i % 2], fact=["nan", "pair"][(i // 2) % 2], K=1, shift_dim=d, new_common=v2))
+    # dimensions with extra axes (a column may consist of the common value only)
+    for agg in (("count", "sum") if tier == "quick" else C03.AGGS):
+        for dims, N in (([[2]], 2), ([[2], []], 2)):
+            D = len(dims)
+            for v in range(E + 1):
+                i += 1
+                commons = [(i + j) % 2 for j in range(D)]
+                v2 = (v + 1) % (E + 1) if v == commons[0] else v
+                out.append(C03._base(N, dims, E, commons, agg, weights=["none", "array"][i % 2], ignore=bool(i % 2),
+                                     fmt="nan", fact="nan", K=1, shift_dim=0, new_common=v2))
     return out
 
 
@@ -66,6 +76,8 @@ def explore(cfg, eng, ctx):
     agg, ignore, fmt = cfg["agg"], cfg["ignore"], cfg["fmt"]
     D = len(cfg["dims"])
     ishape = tuple([cfg["E"] + 1] * D)
+    if any(cfg["dims"]):
+        ASSUMPTIONS  # (multi-axis dimensions: same relational oracle, blocks compared cell by cell)
 
     def path():
         data = aggs.Data(eng, cfg)
